@@ -258,7 +258,12 @@ where {
 
         // Cleartext body
         writer.write_all(self.csf_encoded_text.as_bytes())?;
-        writer.write_all(b"\n")?;
+        if self.csf_encoded_text.ends_with('\r') {
+            // the reader strips "\r\n" when it can: keep a final CR of the text out of its reach
+            writer.write_all(b"\r\n")?;
+        } else {
+            writer.write_all(b"\n")?;
+        }
 
         /// A signature wrapper that serializes complete with packet header
         struct SerializableSignatures<'a>(&'a [Signature]);
